@@ -1513,6 +1513,17 @@ impl<'a> CompileState<'a> {
                 limit.span(),
             )));
         }
+        // `at_most` and `exactly` count up to `limit + 1` facts.
+        if matches!(
+            cmp_type,
+            FactCountType::AtMost(_) | FactCountType::Exactly(_)
+        ) && limit.checked_add(1).is_none()
+        {
+            return Err(self.err(BadArgument(
+                "count limit is too large".to_string(),
+                limit.span(),
+            )));
+        }
         self.compile_fact_literal(fact)?;
         match cmp_type {
             FactCountType::UpTo(_) => self.append_instruction(Instruction::FactCount(*limit)),
